@@ -372,8 +372,29 @@ def graph_scenario(g, tier, props):
     return scen
 
 
+HETERO_NETS = ["net5 net1", "net1 net5", "net3 net5 net1", "net5 net3", "net1 net3 net5", "cluster2.net9 cluster1.net6",
+               "cluster1.net7 cluster2.net9 net1", "net5 net2 net4"]
+MULTI_VMS = [{"vm1": "", "vm2": "only Win10\n", "vm3": "only Ubuntu\n"}, {"vm1": "only CentOS\n", "vm2": "", "vm3": "only Ubuntu\n"},
+             {"vm1": "", "vm2": "", "vm3": "only Ubuntu\n"}, {"vm1": "only Fedora\n", "vm2": "", "vm3": "only Ubuntu\n"}]
+
+
+def hetero_scenario(scen, g):
+    """Workers with different vm restrictions, several vm variants, lazy expansion (whose order matters)."""
+    scen.pop("generated", None)
+    scen["nets"] = g.pick("hnets", HETERO_NETS)
+    scen["vm_strs"] = dict(g.pick("hvms", MULTI_VMS))
+    scen["mode"] = "lazy"
+    scen["tests"] = g.pick("hsel", ["leaves..tutorial1", "leaves..tutorial_gui", "normal..tutorial3", "leaves..tutorial2",
+                                    "leaves..tutorial_gui..client_noop", "leaves..tutorial1,normal..tutorial3"])
+    scen["kind"] = "heterogeneous-workers"
+    return scen
+
+
 def profile_C06(g, tier):
     scen = graph_scenario(g, tier, ["C06"])
+    if g.chance("hetero", 0.2):
+        scen = hetero_scenario(scen, g)
+        scen["mode"] = g.pick("hmode", ["lazy", "eager"])
     if g.chance("fail", 0.3):
         scen["families"]["p_fail"] = 0.2
     if g.chance("populate", 0.3):
@@ -383,6 +404,8 @@ def profile_C06(g, tier):
 
 def profile_C09(g, tier):
     scen = graph_scenario(g, tier, ["C09"])
+    if g.chance("hetero", 0.3):
+        scen = hetero_scenario(scen, g)
     if scen["mode"] == "eager":
         scen["parse_twice"] = g.chance("twice", 0.5)
     if g.chance("populate", 0.3):
@@ -392,6 +415,9 @@ def profile_C09(g, tier):
 
 def profile_C07(g, tier):
     scen = graph_scenario(g, tier, ["C07"])
+    if g.chance("hetero", 0.2):
+        scen = hetero_scenario(scen, g)
+        scen["mode"] = g.pick("hmode", ["lazy", "eager"])
     if tier == "quick" and g.chance("big", 0.3):
         scen["tests"] = g.pick("bigsel", ["leaves..tutorial_get", "leaves..tutorial_finale", "leaves..tutorial_get..implicit_both"])
     return scen
